@@ -423,6 +423,9 @@ func (g *Gen) numLit() *GExpr {
 	if g.on("arith-float") && r.Chance(0.3) {
 		return flit(pick(r, []string{"0.5", "1.5", "2.25", "3.0", "10.125"}))
 	}
+	if r.Chance(0.01) {
+		return &GExpr{Kind: "int", T: TN, S: pick(r, []string{"255", "256", "65536", "2147483648", "4294967297", "9223372036854775807"}), NK: "i"}
+	}
 	return ilit(pick(r, []int{0, 1, 2, 3, 5, 7, 10, 12, 100}))
 }
 
@@ -581,6 +584,9 @@ func (g *Gen) boolAtom(d int) *GExpr {
 		case 5:
 			if g.on("in-literal") {
 				n := r.Range(1, 4)
+				if r.Chance(0.005) {
+					n = pick(r, []int{51, 255, 256, 300})
+				}
 				if r.Bool() {
 					args := []*GExpr{g.S(d-1, "op")}
 					for i := 0; i < n; i++ {
@@ -646,8 +652,12 @@ func (g *Gen) boolAtom(d int) *GExpr {
 						return bin(TB, "=", k, lit(fmt.Sprintf("k%03d", r.Intn(12))))
 					}
 					args := []*GExpr{k}
-					for i := 0; i < r.Range(1, 6); i++ {
-						args = append(args, lit(fmt.Sprintf("k%03d", r.Intn(14))))
+					nk := r.Range(1, 6)
+					if r.Chance(0.01) {
+						nk = pick(r, []int{51, 255, 256, 300})
+					}
+					for i := 0; i < nk; i++ {
+						args = append(args, lit(fmt.Sprintf("k%03d", r.Intn(14+nk))))
 					}
 					return &GExpr{Kind: "in", T: TB, Op: "list", Args: args}
 				case g.on("prefix-path") && r.Chance(0.5):
@@ -755,8 +765,14 @@ func (g *Gen) Select(wantAlias bool) *GSelect {
 	r := g.r
 	q := &GSelect{}
 	depth := pick(r, []int{1, 2, 2, 3})
+	if r.Chance(0.01) {
+		depth = r.Range(4, 6)
+	}
 	aggregate := g.on("group") && r.Chance(0.25)
 	nf := r.Range(1, 4)
+	if r.Chance(0.01) {
+		nf = r.Range(5, 9)
+	}
 	g.aliases = nil
 	names := 0
 	lastStyle := 0
@@ -931,6 +947,9 @@ func (g *Gen) Select(wantAlias bool) *GSelect {
 		if len(cands) > 0 {
 			shuffle(r, cands)
 			n := r.Range(1, 2)
+			if r.Chance(0.03) {
+				n = r.Range(3, 5)
+			}
 			if n > len(cands) {
 				n = len(cands)
 			}
